@@ -2,8 +2,20 @@ module verifharness
 
 go 1.18
 
-require github.com/modernizing/coca v0.0.0
+require (
+	github.com/antlr/antlr4/runtime/Go/antlr/v4 v4.0.0-20221202181307-76fa05c21b12
+	github.com/awalterschulze/gographviz v0.0.0-20190522210029-fa59802746ab
+	github.com/modernizing/coca v0.0.0
+)
 
-require github.com/yourbasic/radix v0.0.0-20180308122924-cbe1cc82e907 // indirect
+require (
+	github.com/mattn/go-runewidth v0.0.7 // indirect
+	github.com/olekukonko/tablewriter v0.0.4 // indirect
+	github.com/sabhiram/go-gitignore v0.0.0-20180611051255-d3107576ba94 // indirect
+	github.com/spf13/cobra v0.0.5 // indirect
+	github.com/spf13/pflag v1.0.3 // indirect
+	github.com/yourbasic/radix v0.0.0-20180308122924-cbe1cc82e907 // indirect
+	golang.org/x/exp v0.0.0-20220722155223-a9213eeb770e // indirect
+)
 
 replace github.com/modernizing/coca => /repo
